@@ -668,6 +668,12 @@ func (c *SpecCtx) call(x *ast.CallExpr) SVal {
 				specFail("freshloop() only inside loop invariants")
 			}
 			return SVal{sx(">=", c.refOf(v), c.loopBase), tBool}
+		case "typed": // the object was allocated as the static type of the pointer (new(T) / &T{})
+			v := c.tr(x.Args[0])
+			if _, ok := v.ty.Underlying().(*types.Pointer); !ok {
+				specFail("typed() needs a pointer")
+			}
+			return SVal{eq(sx("ref-ty", c.refOf(v)), intLit(int64(refTag(v.ty)))), tBool}
 		case "allocated": // ref below the current watermark
 			v := c.tr(x.Args[0])
 			return SVal{sx("<", c.refOf(v), c.st.wm), tBool}
